@@ -13,7 +13,7 @@
 """
 from .. import terms as T
 from ..terms import const
-from ..rules import P_, run, ret_paths, raise_paths, exc_name, bind_call_args
+from ..rules import P_, run, ret_paths, raise_paths, exc_name, bind_call_args, property_value
 from ..loader import AnalysisError
 
 EXPLANATION = (
@@ -273,8 +273,17 @@ def rule_flatten(ctx):
         ctx.violated('R1', mi, 'self.axes = ...', 'MultiAxis keeps its member axes in the given order')
     gv = ctx.fn(AX + 'MultiAxis._get_values')
     ev = run(ctx, gv, mode='join')
-    s = ' '.join(T.show(e.a) for p in ev.paths for e in p.calls('_flatten'))
-    if "each(self.axes).values" in s:
+    def member_labels(c):
+        # _flatten(*[ax.values for ax in self.axes]); the list may be read through a property of the class (self.levels)
+        if len(c[2]) != 1 or c[2][0][0] != 'star' or c[3]:
+            return False
+        src = c[2][0][1]
+        if src[0] == 'attr' and src[1] == SELF:
+            src = property_value(ctx, AX + 'MultiAxis', src[2]) or src
+        return src[0] == 'comp' and src[1] == 'list' and len(src[3]) == 1 and src[3][0][1] == ('attr', SELF, 'axes') and not src[3][0][2] \
+            and src[2] == ('attr', ('elem', ('attr', SELF, 'axes'), src[2][1][2] if src[2][0] == 'attr' and src[2][1][0] == 'elem' else None), 'values')
+    fcalls = [e.a for p in ev.paths for e in p.calls('_flatten')]
+    if fcalls and all(member_labels(c) for c in fcalls):
         ctx.holds('R1', 'MultiAxis labels = _flatten(member labels in member order)')
     else:
         ctx.violated('R1', gv, 'MultiAxis._get_values', 'grouped labels must be _flatten(*[ax.values for ax in self.axes])')
